@@ -21,11 +21,13 @@ def cpc_nontrivial(evs):
 def _args(tier, seed, k, profile):
     # kinds: s sweep (random typed items across every flavor boundary), a aimed (pool by (row,col): many window shifts,
     # early zone), u union (unequal lgK, permutations, lvalue/rvalue), b big K with batched updates
-    kinds = ["saubua", "uasuab", "asubsu", "ubuasa"][k % 4]
+    # d deletion-heavy aimed (surprising-value table under stress in SLIDING flavor: probe clusters at the end of the slot array,
+    # deletions inside them), r long random stream (20-40 k items, many window moves, batched).  Every file has a d segment early.
+    kinds = ["sdaubur", "udasbad", "adsubru", "ubdasud"][k % 4]
     if tier == Q:
-        maxlgk, events, segs = 10, 2600, 6
+        maxlgk, events, segs = 10, 2600, 7
     else:
-        maxlgk, events, segs = (14 if k % 3 == 0 else 11), 6000, 8
+        maxlgk, events, segs = (14 if k % 3 == 0 else 11), 6000, 9
     return ["--seed", seed, "--segments", segs, "--events", events, "--maxlgk", maxlgk, "--kinds", kinds,
             "--serde", 15 if profile == "serde" else 4]
 
@@ -46,6 +48,9 @@ CPC_MC = [
     # design model of the union (cases A-D, reduce_k, both get_result paths) on a catalogue of 9 sketches of every flavor
     dict(module="CpcUnionDesign", cfg="MC_CpcUnionDesign.cfg", workers=2),
     dict(module="CpcUnionDesign", cfg="MC_CpcUnionDesign_4.cfg", workers=4, tier=T),
+    # the hash table behind the surprising-value table (open addressing, deletion with cluster repair incl. wrap-around,
+    # growth / shrinking) refining a set
+    dict(module="CpcTable", cfg="MC_CpcTable.cfg", workers=3),
     # the multi-object contract itself (union definition, order independence, copies, images)
     dict(module="MC_Cpc", cfg="MC_Cpc.cfg", workers=3),
     dict(module="MC_Cpc", cfg="MC_Cpc_serde.cfg", workers=1),
@@ -54,6 +59,7 @@ CPC_MC = [
 CPC_MC_NEG = [
     dict(module="CpcDesign", cfg="MC_CpcDesign_neg_fic.cfg"),
     dict(module="CpcUnionDesign", cfg="MC_CpcUnionDesign_neg_fold.cfg"),
+    dict(module="CpcTable", cfg="MC_CpcTable_neg_wrap.cfg"),
 ]
 
 def _mc_parallel(oc, tier):
